@@ -121,6 +121,19 @@ func CreateAbsoluteURL(url string, base *nurl.URL) string {
 	return base.ResolveReference(tmp).String()
 }
 
+// ToLowerASCII lower-cases the ASCII letters of s and nothing else: host names are
+// case-insensitive in ASCII only (strings.ToLower also maps İ to i and K, the Kelvin
+// sign, to k, which makes two different hosts look like one).
+func ToLowerASCII(s string) string {
+	b := []byte(s)
+	for i, c := range b {
+		if c >= 'A' && c <= 'Z' {
+			b[i] = c + 'a' - 'A'
+		}
+	}
+	return string(b)
+}
+
 // EscapeInvalidURLChars escapes the characters of an URL that may not be written in an
 // URL as they are (white space, non-ASCII ...) and leaves everything else alone, so that
 // the URL can be parsed and written out again with its own escapes intact.
